@@ -991,6 +991,7 @@ func canonicalIndexLoop(info *types.Info, f *ast.ForStmt) (types.Object, ast.Exp
 func (fv *FuncVerifier) prepareLoopGhostTypes() {
 	info := fv.info
 	for s, ord := range fv.loops {
+		fv.loopGhostTypes[fmt.Sprintf("done%d", ord)] = types.Typ[types.Bool]
 		fv.loopGhostTypes[fmt.Sprintf("it%d", ord)] = types.Typ[types.Int]
 		fv.loopGhostTypes[fmt.Sprintf("off%d", ord)] = types.Typ[types.Int]
 		if f, ok := s.(*ast.ForStmt); ok {
